@@ -54,7 +54,7 @@ var edgeHTMLAttrs = []struct{ open, attr, close string }{
 	{"<textarea ", "rows", ">x</textarea>"}, {"<table ", "border", "><tr><td>x</td></tr></table>"},
 }
 
-var edgeHTMLVals = []string{"12", "+12", "-12", " 12 ", "1.5", "1e9", "50%", "12px", "#ffcc00", "red", "99999999999999999999", "-99999999999999999999", "width:1px;color:red", "font:1px/2 x"}
+var edgeHTMLVals = []string{"0", "12", "+12", "-12", " 12 ", "00", "-0", "1.5", "1e9", "50%", "12px", "#ffcc00", "red", "99999999999999999999", "-99999999999999999999", "width:1px;color:red", "font:1px/2 x"}
 
 func (g *gen) edge() []job {
 	var out []job
@@ -128,6 +128,10 @@ func (g *gen) edge() []job {
 	for _, s := range nthTexts {
 		truncs(s, "nth")
 	}
+	// every An+B form with one extra token of every kind before / after it (cssedge.NthGrid): the model rejects them
+	cssedge.NthGrid(false, func(s string) {
+		add("nth-grid", "nth", s, 0)
+	})
 	for _, s := range atPreludes {
 		truncs(s, "media")
 	}
@@ -203,6 +207,9 @@ func (g *gen) edge() []job {
 			add("trunc", "intattr", p, 0)
 			add("trunc", "intattr", p, 1)
 		}
+	}
+	for _, s := range spanVals() {
+		truncs(s, "spans")
 	}
 	for _, s := range svgPars {
 		truncs(s, "par")
